@@ -33,7 +33,7 @@ func (prop) ID() string    { return "C19" }
 func (prop) Level() string { return "exploration" }
 func (prop) Rule() string {
 	return "framing: random and boundary agent.Request/Response messages (0-length, 127/128, 16383/16384 byte bodies) written with WriteMessage, concatenated and read back with ReadMessage through a reader that delivers EVERY 2-way and 3-way split of short streams and seeded fragmentations (1-byte reads included) of long ones; " +
-		"echo: udf.Server <-> in-process echo agent (udf/agent) over pipes with fragmenting reader and writer, point and batch sequences over all field types and group shapes (byName, 0-3 dimensions, tags a strict superset of the dimensions), empty batches, keepalives (400 ms timeout, sessions that span several keepalive periods) and Snapshot()/Restore() calls from a second goroutine; node: the same through a UDF node of a real task (TaskMaster.UDFService = harness, kapacitor.NewUDFSocket over in-memory pipes) with sinks before and after; also under the race detector. " +
+		"echo: udf.Server <-> in-process echo agent (udf/agent) over pipes with fragmenting reader and writer, point and batch sequences over all field types and group shapes (byName, 0-3 dimensions, tags a strict superset of the dimensions), empty batches, keepalives (400 ms timeout, sessions that span several keepalive periods) and Snapshot()/Restore() calls from a second goroutine; node: the same through a UDF node of a real task (TaskMaster.UDFService = harness, kapacitor.NewUDFSocket over in-memory pipes) with sinks before and after; also under the race detector; agentbusy: the Go agent alone, fed 40-160 points and keepalive requests back to back while its output is slow. " +
 		"Oracle: output == input (name, db, rp, group id, dimensions, tags, typed fields, UTC-ns time, batch framing, tmax, order), read-back message proto.Equal the written one, snapshot bytes == what the agent supplied, restore delivers them. Non-trivial: a session (content hash) with >= 5 messages echoed and >= 1 keepalive or snapshot interleaved / a stream whose split positions fall inside a varint or a body"
 }
 func (prop) Assumptions() []string {
@@ -68,6 +68,13 @@ func (prop) Cases(tier string, seed uint64) []core.Case {
 	for i := 0; i < nn; i += 3 {
 		cs = append(cs, core.Case{ID: fmt.Sprintf("node-%d", i), Kind: "node", Seed: seed*929 + uint64(i), N: 3})
 	}
+	nab := 6
+	if tier == "thorough" {
+		nab = 120
+	}
+	for i := 0; i < nab; i++ {
+		cs = append(cs, core.Case{ID: fmt.Sprintf("agentbusy-%d", i), Kind: "agentbusy", Seed: seed*937 + uint64(i), N: 4, Race: i%3 == 2})
+	}
 	for i := 0; i < nr; i += 3 {
 		k := "echo"
 		if i%2 == 1 {
@@ -88,6 +95,8 @@ func (prop) Run(x *core.Ctx) {
 			runEcho(x, r, i)
 		case "node":
 			runNode(x, r, i)
+		case "agentbusy":
+			runAgentBusy(x, r, i)
 		}
 		if x.NumViolations() > 30 {
 			return
